@@ -134,6 +134,15 @@ reg("C13", "differential monitor: real wrapper stacks vs a float64 composition o
     "Trusts the ProbeEnv harness environment and twin Gymnasium/Gymnax environments; rescale bounds within 8*eps32*(|bounds| scale) instead of 1 ulp (the "
     "correct float32 affine formula cannot do better); classic-control stacks under jit only.")
 
+reg("C20", "invariants over returned states and helper outputs: tree walk of every mjx.Model field against the nominal model, range checks on randomised fields, MuJoCo C-engine kinematics recomputed from the returned qpos, per-step gait-phase checks along 1e5-step histories and real transition rollouts",
+    "Held on every key/history explored: randomize_* / randomize_model (default, custom, degenerate ranges; ~1000 keys each) change exactly the intended "
+    "entries of the four intended fields, within range, all other 380+ model fields bit-equal to nominal; sampled commands and gait frequencies lie in "
+    "range (zero for standing tasks); initial states of the G1 tasks have kinematics consistent with their qpos (1e-5) and sit at the documented ground "
+    "clearance; gait phases stay in [-pi, pi], half a cycle apart, and advance by 2*pi*f*dt per control step over 1e5-step float32 histories and along real "
+    "transition rollouts; desired foot height stays in [0, h], 0 at +-pi, h at 0.",
+    "Trusts the MuJoCo C engine for reference kinematics; half-cycle separation tolerance 1e-4 + 1e-6*n over n steps (float32 accumulation, measured); "
+    "quick tier uses G1Standing only (other tasks compile for minutes).")
+
 
 def main():
     props = [json.loads(l) for l in (ROOT / "properties.jsonl").read_text().splitlines() if l.strip()]
